@@ -139,8 +139,8 @@ def gen(run):
         yield C.case(W, H, data), "valid-c19"
     # streams far beyond the 4 KiB bit buffer filled with back-references that carry the most extra bits, with a deep green code
     # (extradeep) or a single-symbol distance code (onedist): the read-ahead computed per image must cover them
-    for i in range(6 if quick else 120):
-        W, H, data, _ = V.build_lossless(rng, ["extradeep", "onedist", "onedist"][i % 3])
+    for i in range(9 if quick else 240):
+        W, H, data, _ = V.build_lossless(rng, ["extradeep", "onedist", "extradeep"][i % 3])
         yield C.case(W, H, data), "valid-longrefs"
     # long literal runs with red/blue/alpha codes of depth 15: a pixel costs more bits than a back-reference; the stream crosses
     # several refills of the 4 KiB bit buffer at varying bit offsets (read-ahead computation, C08's anchor lossless.rs:303-313)
